@@ -195,6 +195,9 @@ func (j *udpJob) WriteMsg(m *dns.Msg) error {
 	// allocation-stable; an oversized response lets PackBuffer grow. The
 	// full-length slice matters: PackBuffer selects the caller's buffer
 	// by len, not cap, so a zero-length slice allocated every reply.
+	// Cleared first: the library's packer steps over octets it does not
+	// write, and in a reused slab those are the previous reply's.
+	clear(j.tx[:])
 	out, err := m.PackBuffer(j.tx[:])
 	if err != nil {
 		return err
